@@ -187,19 +187,51 @@ TEARDOWN = {
 
 
 BADSUM = "G.bad - old(G.bad) == (len(failures) - old(len(failures))) + (len(errors) - old(len(errors)))"
+TEST_GHOST = {'bad': 'int', 'ntd': 'bool', 'stdout': 'Stream', 'stderr': 'Stream', 'tsu': 'bool', 'hookexc': 'bool',
+              'cap_out': 'Opt[Str]', 'cap_err': 'Opt[Str]'}
+STREAMS_SAME = "G.stdout == old(G.stdout) and G.stderr == old(G.stderr)"
+BETWEEN_TESTS = ["not G.tsu", "not G.hookexc"]      # no per-test layer hook pending, none has raised
 
-# assumed here (trusted=True); its body is put under contract in runner_result.py
+# The function run_tests (test loop of one layer).  Used as a callee contract by run_layer; its body is verified
+# in the C12/C16 checks (sidecar runner_result.py, which adds the TestResult contracts and the unittest protocol).
 RUN_TESTS_FN = {
-    'property': ['C02', 'C12', 'C16'],
+    'merge': True,          # join paths after each statement (many independent reporting branches)
+    'property': ['C02', 'C03', 'C04', 'C12', 'C13', 'C16'],
     'trusted': True,
     'params': {'options': 'Rec[Options]', 'tests': 'Suite', 'name': 'Str', 'failures': 'List[Tuple[Any,Any]]',
                'errors': 'List[Tuple[Any,Any]]', 'skipped': 'List[Tuple[Any,Any]]', 'import_errors': 'List[Any]'},
     'returns': 'int',
-    'ghost': {'bad': 'int', 'ntd': 'bool'},
-    'requires': [],
-    'modifies': ['failures', 'errors', 'skipped', 'G.bad'],
-    'ensures': [BADSUM, "result >= 0", "len(failures) >= old(len(failures))", "len(errors) >= old(len(errors))"],
-    'raises': {'EndRun': ["options.post_mortem"], 'OtherBase': [], 'MemoryError': []},
+    'ghost': TEST_GHOST,
+    'locals': {},
+    'requires': ["WF()"] + BETWEEN_TESTS,
+    'modifies': ['failures', 'errors', 'skipped', 'G.bad', 'G.stdout', 'G.stderr', 'G.tsu', 'G.hookexc', 'G.cap_out',
+                 'G.cap_err'],
+    'ensures': [BADSUM, "result >= 0", "len(failures) >= old(len(failures))", "len(errors) >= old(len(errors))",
+                STREAMS_SAME] + BETWEEN_TESTS,           # C13/C18: after the tests the std streams are what they were
+    'raises': {
+        'EndRun': ["options.post_mortem", STREAMS_SAME],
+        # KeyboardInterrupt & co.: propagate by design, but the std streams are restored (C13/C18)
+        'OtherBase': [STREAMS_SAME], 'KeyboardInterrupt': [STREAMS_SAME],
+        # an exception of a per-test layer hook aborts the run by design; nothing else escapes (C04)
+        'Exception': ["G.hookexc", STREAMS_SAME],
+    },
+    'callsites': {
+        'test': [
+            # C16: under --stop-on-error no test starts once this call has recorded a bad outcome (also across --repeat)
+            "implies(options.stop_on_error and not options.post_mortem, G.bad == old(G.bad))",
+            # C03: the tests of the suite, in order, one call each per iteration
+            "test == suite_item(tests, _i)",
+        ],
+        'result.startTest': ["test == suite_item(tests, _i)"],     # --post-mortem: tests are debugged one by one
+        # C12: the per-layer summary is computed from this iteration's result
+        'output.summary': ["n_failures == len(result.failures) + len(result.unexpectedSuccesses)"],
+    },
+    'loops': {
+        '#loop1': [BADSUM, "len(failures) >= old(len(failures))", "len(errors) >= old(len(errors))", STREAMS_SAME,
+                   "ran >= 0", "implies(options.stop_on_error and not options.post_mortem, G.bad == old(G.bad))"]
+                  + BETWEEN_TESTS,
+        '#loop2': "PER_TEST", '#loop3': "PER_TEST",
+    },
 }
 
 RUN_LAYER = {
@@ -208,19 +240,22 @@ RUN_LAYER = {
                'setup_layers': 'Dict[Layer,int]', 'failures': 'List[Tuple[Any,Any]]',
                'errors': 'List[Tuple[Any,Any]]', 'skipped': 'List[Tuple[Any,Any]]', 'import_errors': 'List[Any]'},
     'returns': 'int',
-    'ghost': {'bad': 'int', 'ntd': 'bool'},
+    'ghost': TEST_GHOST,
     'locals': {'gathered': 'List[Layer]'},
-    'requires': ["WF()", "closed(setup_layers)", "object not in setup_layers", "not G.ntd", "layer != object"],
-    'modifies': ['setup_layers', 'failures', 'errors', 'skipped', 'G.bad', 'G.ntd'],
+    'requires': ["WF()", "closed(setup_layers)", "object not in setup_layers", "not G.ntd", "layer != object"] + BETWEEN_TESTS,
+    'modifies': ['setup_layers', 'failures', 'errors', 'skipped', 'G.bad', 'G.ntd', 'G.stdout', 'G.stderr', 'G.tsu',
+                 'G.hookexc', 'G.cap_out', 'G.cap_err'],
     'ensures': ["closed(setup_layers)", "object not in setup_layers", "not G.ntd", BADSUM, "result >= 0",
-                "len(failures) >= old(len(failures))", "len(errors) >= old(len(errors))"],
+                "len(failures) >= old(len(failures))", "len(errors) >= old(len(errors))", STREAMS_SAME] + BETWEEN_TESTS,
     'raises': {
         # containment (C04): for hooks raising Exception subclasses nothing but these leaves run_layer
-        'EndRun': ["closed(setup_layers)", "object not in setup_layers", "options.post_mortem"],
+        'EndRun': ["closed(setup_layers)", "object not in setup_layers", "options.post_mortem", STREAMS_SAME],
         'CanNotTearDown': ["G.ntd", "closed(setup_layers)", "object not in setup_layers", BADSUM,
-                           "len(failures) >= old(len(failures))", "len(errors) >= old(len(errors))"],
-        'MemoryError': [],
-        'OtherBase': [],
+                           "len(failures) >= old(len(failures))", "len(errors) >= old(len(errors))", STREAMS_SAME]
+                          + BETWEEN_TESTS,
+        'MemoryError': [STREAMS_SAME],
+        'OtherBase': [STREAMS_SAME], 'KeyboardInterrupt': [STREAMS_SAME],
+        'Exception': ["G.hookexc", STREAMS_SAME],            # only a raising per-test layer hook (C04)
     },
     'callsites': {
         # the only place a test of this layer executes: exactly the layer and its transitive bases are set up
